@@ -1,7 +1,75 @@
-import VermouthModel.Proto
-open Proto
+import VermouthModel.C12
+open Proto C12
 
-/-- placeholder driver for C12: replaced when the model is written -/
-def handle (_ : Unit) (_ : List Tok) : Unit × String := ((), "bad-op")
+def attrsOf (n r c : Tok) : Option Attrs := do
+  pure { name := ← n.optStr?, resid := ← r.optInt?, cg := ← c.optInt? }
 
-def main : IO Unit := runDriver handle ()
+def nodeOf (t : Tok) : Option (Int × Attrs) := do
+  match ← t.list? with
+  | [k, n, r, c] => pure (← k.int?, ← attrsOf n r c)
+  | _ => none
+
+def bnodeOf (t : Tok) : Option (String × Attrs) := do
+  match ← t.list? with
+  | [k, n, r, c] => pure (← k.str?, ← attrsOf n r c)
+  | _ => none
+
+def pairLe (a b : Int × Int) : Bool := a.1 < b.1 || (a.1 == b.1 && a.2 ≤ b.2)
+
+def dedupAdj : List (Int × Int) → List (Int × Int)
+  | a :: b :: rest => if a = b then dedupAdj (b :: rest) else a :: dedupAdj (b :: rest)
+  | l => l
+
+def dumpMol (m : Mol) : String :=
+  let nodes := m.nodes.map fun (k, a) => encList [encInt k, encOptStr a.name, encOptInt a.resid, encOptInt a.cg]
+  let es := dedupAdj ((m.edges.map fun (u, v) => (min u v, max u v)).mergeSort pairLe)
+  let edges := es.map fun (u, v) => encList [encInt u, encInt v]
+  let its := m.inters.mergeSort (fun a b => a.1 ≤ b.1)
+  let inters := its.map fun (t, i) => encList [encStr t, encList (i.atoms.map encInt), encStr i.params, encInt i.version]
+  let cites := (m.cites.mergeSort (fun a b => a ≤ b)).map encStr
+  encList [encList nodes, encList edges, encList inters, encList cites, encOptInt m.nrexcl]
+
+def dumpPool (p : Pool) : String := encList (p.map dumpMol)
+
+def opOf (toks : List Tok) : Option Op :=
+  match toks with
+  | [Tok.str "new", n] => do pure (.newMol (← n.optInt?))
+  | [Tok.str "addnode", m, k, n, r, c] => do pure (.addNode (← m.nat?) (← k.int?) (← attrsOf n r c))
+  | [Tok.str "addnodes", m, l] => do pure (.addNodes (← m.nat?) (← (← l.list?).mapM nodeOf))
+  | [Tok.str "rmnode", m, k] => do pure (.removeNode (← m.nat?) (← k.int?))
+  | [Tok.str "rmnodes", m, ks] => do pure (.removeNodes (← m.nat?) (← ints? ks))
+  | [Tok.str "addedge", m, u, v] => do pure (.addEdge (← m.nat?) (← u.int?) (← v.int?))
+  | [Tok.str "addinter", m, ty, atoms, pr, v] => do
+      pure (.addInter (← m.nat?) (← ty.str?) (← ints? atoms) (← pr.str?) (← v.int?))
+  | [Tok.str "addorrep", m, ty, atoms, pr, v, cs] => do
+      pure (.addOrReplace (← m.nat?) (← ty.str?) (← ints? atoms) (← pr.str?) (← v.int?) (← strs? cs))
+  | [Tok.str "rminter", m, ty, atoms, v] => do
+      pure (.removeInter (← m.nat?) (← ty.str?) (← ints? atoms) (← v.int?))
+  | [Tok.str "copy", m] => do pure (.copy (← m.nat?))
+  | [Tok.str "subgraph", m, ks] => do pure (.subgraph (← m.nat?) (← ints? ks))
+  | [Tok.str "merge", i, j] => do pure (.merge (← i.nat?) (← j.nat?))
+  | [Tok.str "fromblock", nodes, edges, inters, cites, nrexcl, ao, ro, co] => do
+      let ns ← (← nodes.list?).mapM bnodeOf
+      let es ← (← edges.list?).mapM (fun e => do
+        match ← strs? e with
+        | [u, v] => pure (u, v)
+        | _ => none)
+      let is ← (← inters.list?).mapM (fun t => do
+        match ← t.list? with
+        | [ty, ats, pr, v] => pure (← ty.str?, ← strs? ats, ← pr.str?, ← v.int?)
+        | _ => none)
+      pure (.fromBlock { nodes := ns, edges := es, inters := is, cites := ← strs? cites, nrexcl := ← nrexcl.optInt? }
+              (← ao.int?) (← ro.int?) (← co.int?))
+  | _ => none
+
+def handle (p : Pool) (toks : List Tok) : Pool × String :=
+  match toks with
+  | [Tok.str "reset"] => ([], "ok [ ]")
+  | _ =>
+    match opOf toks with
+    | none => (p, "bad-op")
+    | some op =>
+      let (p', o) := step p op
+      (p', o.str ++ " " ++ dumpPool p')
+
+def main : IO Unit := runDriver handle ([] : Pool)
